@@ -188,6 +188,7 @@ def replay_scripts(ctx):
 
 def check_C05(ctx):
     fw.coq_prove(ctx, "Props/Properties_C05.v")
+    import checks; checks.also_prove_file(ctx, "Props/Properties_C05_C10_history.v")   # the state hypotheses hold in every reachable state (Kernel6/HistHyps.v)
     qr = run_queries(ctx, extra_files=replay_scripts(ctx))
     if qr.ok():
         judge_queries(ctx, qr, oracles=("C05",))
